@@ -60,6 +60,28 @@ DEMOS = {
     ("C09r2", "change2"): ("sh", "bash {out}/demo/run.sh 2>&1 | tail -25; exit ${PIPESTATUS[0]}", None),
     ("C04r2", "change1"): ("sh", "bash {out}/demo/run.sh 2>&1 | tail -25; exit ${PIPESTATUS[0]}", None),
     ("C04r2", "change2"): ("sh", "bash {out}/demo/run.sh 2>&1 | tail -25; exit ${PIPESTATUS[0]}", None),
+    ("C10r2", "change1"): ("sh", "bash {out}/demo/run.sh 2>&1 | tail -25; exit ${PIPESTATUS[0]}", None),
+    ("C10r2", "change2"): ("sh", "bash {out}/demo/run.sh 2>&1 | tail -25; exit ${PIPESTATUS[0]}", None),
+    ("C11r2", "change1"): ("sh", "bash {out}/demo/run.sh 2>&1 | tail -25; exit ${PIPESTATUS[0]}", None),
+    ("C11r2", "change2"): ("sh", "bash {out}/demo/run.sh 2>&1 | tail -25; exit ${PIPESTATUS[0]}", None),
+    ("C12r2", "change1"): ("sh", "bash {out}/demo/run.sh 2>&1 | tail -25; exit ${PIPESTATUS[0]}", None),
+    ("C12r2", "change2"): ("sh", "bash {out}/demo/run.sh 2>&1 | tail -25; exit ${PIPESTATUS[0]}", None),
+    ("C13r2", "change1"): ("sh", "bash {out}/demo/run.sh 2>&1 | tail -25; exit ${PIPESTATUS[0]}", None),
+    ("C13r2", "change2"): ("sh", "bash {out}/demo/run.sh 2>&1 | tail -25; exit ${PIPESTATUS[0]}", None),
+    ("C14r2", "change1"): ("sh", "bash {out}/demo/run.sh 2>&1 | tail -25; exit ${PIPESTATUS[0]}", None),
+    ("C14r2", "change2"): ("sh", "bash {out}/demo/run.sh 2>&1 | tail -25; exit ${PIPESTATUS[0]}", None),
+    ("C15r2", "change1"): ("sh", "bash {out}/demo/run.sh 2>&1 | tail -25; exit ${PIPESTATUS[0]}", None),
+    ("C15r2", "change2"): ("sh", "bash {out}/demo/run.sh 2>&1 | tail -25; exit ${PIPESTATUS[0]}", None),
+    ("C16r2", "change1"): ("sh", "bash {out}/demo/run.sh 2>&1 | tail -25; exit ${PIPESTATUS[0]}", None),
+    ("C16r2", "change2"): ("sh", "bash {out}/demo/run.sh 2>&1 | tail -25; exit ${PIPESTATUS[0]}", None),
+    ("C17r2", "change1"): ("sh", "bash {out}/demo/run.sh 2>&1 | tail -25; exit ${PIPESTATUS[0]}", None),
+    ("C17r2", "change2"): ("sh", "bash {out}/demo/run.sh 2>&1 | tail -25; exit ${PIPESTATUS[0]}", None),
+    ("C18r2", "change1"): ("sh", "bash {out}/demo/run.sh 2>&1 | tail -25; exit ${PIPESTATUS[0]}", None),
+    ("C18r2", "change2"): ("sh", "bash {out}/demo/run.sh 2>&1 | tail -25; exit ${PIPESTATUS[0]}", None),
+    ("C19r2", "change1"): ("sh", "bash {out}/demo/run.sh 2>&1 | tail -25; exit ${PIPESTATUS[0]}", None),
+    ("C19r2", "change2"): ("sh", "bash {out}/demo/run.sh 2>&1 | tail -25; exit ${PIPESTATUS[0]}", None),
+    ("C20r2", "change1"): ("sh", "bash {out}/demo/run.sh 2>&1 | tail -25; exit ${PIPESTATUS[0]}", None),
+    ("C20r2", "change2"): ("sh", "bash {out}/demo/run.sh 2>&1 | tail -25; exit ${PIPESTATUS[0]}", None),
     ("C01r2", "change1"): ("sh", "python3 {out}/demo/demo.py 2>&1 | tail -25; exit ${PIPESTATUS[0]}", None),
     ("C01r2", "change2"): ("sh", "python3 {out}/demo/demo.py 2>&1 | tail -25; exit ${PIPESTATUS[0]}", None),
 }
